@@ -98,6 +98,7 @@ def replay_file(path):
         mod = fi.get("module", "oracles.harness")
         env = dict(os.environ)
         env["PYTHONPATH"] = ov + os.pathsep + ROOT
+        env.update(fi.get("env") or {})
         p = subprocess.run([PY, "-m", mod, "--replay", path], capture_output=True, text=True, env=env, cwd=ROOT)
         print(p.stdout.strip()[-2000:])
         if p.returncode not in (0, 1):
@@ -105,10 +106,10 @@ def replay_file(path):
         return p.returncode
 
 
-def module_standin(pid, module, args, what, bound):
+def module_standin(pid, module, args, what, bound, env_extra=None):
     """Run `python -m <module> <args>` in the overlay; RESULT json with ok/evaluations/distinct/sample[/case/errors]."""
     with Overlay() as ov:
-        res = run_module(ov, module, args)
+        res = run_module(ov, module, args, env_extra=env_extra)
     standin = {"what": what, "bound": bound, "evaluations": res.get("evaluations", 0), "distinct": res.get("distinct", 0),
                "failures": 0 if res.get("ok") else 1, "sample": res.get("sample")}
     viol = []
@@ -119,7 +120,8 @@ def module_standin(pid, module, args, what, bound):
         path = os.path.join(ROOT, "replays", pid, "case-%s.json" % h)
         with open(path, "w") as f:
             json.dump({"property": pid, "kind": "bounded-case", "obligation": None,
-                       "failing_input": {"module": module, "case": res.get("case")}, "errors": res.get("errors")},
+                       "failing_input": {"module": module, "case": res.get("case"), "env": env_extra},
+                       "errors": res.get("errors")},
                       f, indent=1, default=str)
         viol.append((path, "; ".join(map(str, (res.get("errors") or [])[:2]))))
     elif res.get("ok") is None:
